@@ -1,7 +1,8 @@
 (* C13 — property theorems only. Each is closed by [exact] of a lemma from Proofs*.v;
    Print Assumptions is run on every Theorem by bin/check. *)
 From Coq Require Import List NArith ZArith Bool Lia.
-From V Require Import C12.Model C13.Model C13.Proofs C13.Proofs_Votes C13.Proofs_Replay C13.Proofs_Commit C13.Proofs_Resume.
+From V Require Import C12.Model C13.Model C13.Proofs C13.Proofs_Votes C13.Proofs_Replay C13.Proofs_Commit C13.Proofs_Resume
+  C13.Proofs_Obs C13.Proofs_ObsStep C13.Proofs_Crash C13.Proofs_Final.
 Import ListNotations.
 Open Scope N_scope.
 
@@ -79,6 +80,33 @@ Theorem C13_no_conflict_partial : forall E h D n ins pre,
   no_conflict pre (flat (snd (lifetime E h D n ins))) = true.
 Proof. exact no_conflict_lemma. Qed.
 
+(* C13_no_conflict.  For EVERY kill point k (before / after every individual effect) of a plain life:
+   the process restarted on what is then on disk, at the height after the last completed commit callback,
+   with any inputs ins2, never broadcasts a prevote / precommit that conflicts with one broadcast before the
+   kill.  Hypotheses, all named:
+     value_deterministic E   Value() does not depend on how often it was asked (C13_proposer_refuted: needed);
+     quorum_positive E       the quorum of every height is > 0 (total voting power >= 1);
+     good_run E h0 ins1      the killed life is "plain" (executable predicate, Model.good_step): it starts on an
+                             empty log at h0 >= 1; no message of a height above the current one is delivered;
+                             ProcessStart does not itself commit; a stale timeout finds no rule pending; a
+                             rejected message leaves its counter cell unchanged;
+     life_disc (2nd life)    no timeout reaches a state machine whose height is not started (C12's discipline).
+   Not covered by this theorem (covered by the differential only): histories with messages for future heights
+   (the log is then re-ordered by LoadAllEntries; needs a commutation argument). *)
+Theorem C13_no_conflict : forall E h0 ins1 k n2 ins2,
+  value_deterministic E -> quorum_positive E -> good_run E h0 ins1 = true ->
+  (let '(pre, post) := crash_restart E h0 ins1 k n2 ins2 in
+   life_disc E (resume_height h0 pre) (crash_at k (flat (snd (lifetime E h0 [] 0 ins1))) []) n2 ins2 = true ->
+   no_conflict pre (flat (snd post)) = true).
+Proof. exact no_conflict_plain. Qed.
+
+(* the state machine respects the observational equivalence the replay theorems are stated with *)
+Theorem C13_step_respects_obs_eq : forall c, (forall h, 0 < q_of (c_total c h)) -> forall s s' i,
+  obs_eq s s' ->
+  obs_eq (fst (fst (step_x c s i))) (fst (fst (step_x c s' i))) /\
+  vis (snd (fst (step_x c s i))) = vis (snd (fst (step_x c s' i))).
+Proof. exact step_x_obs. Qed.
+
 (* ---------- replay ---------- *)
 (* FULL STATEMENT (not proved): recovered state = state of the crashed life after the durable input prefix.
    PROVED: (1) recovery is a function of the log alone: with a reproducible Value(), the effects of the
@@ -154,3 +182,32 @@ Example ex_every_kill_point :
     core_eqb (d_sm (fst post)) (d_sm (fst (lifetime ex_env_fixed 1 [] 0 ex_ins))))
     (seq 0 26) = true.
 Proof. vm_compute. split; reflexivity. Qed.
+
+(* ---------- the hypotheses of C13_no_conflict are satisfiable / not decorative ---------- *)
+Example ex_plain_run : good_run ex_env_fixed 1 ex_ins = true /\ good_run ex_env_fresh 1 [] = true.
+Proof. vm_compute. split; reflexivity. Qed.
+Example ex_quorum_positive : quorum_positive ex_env_fixed /\ quorum_positive ex_env_fresh.
+Proof. split; intro h; vm_compute; reflexivity. Qed.
+
+(* value_deterministic is needed: the refuting run satisfies every other hypothesis of C13_no_conflict *)
+Example C13_value_deterministic_needed :
+  good_run ex_env_fresh 1 [] = true /\ quorum_positive ex_env_fresh /\
+  (let '(pre, post) := crash_restart ex_env_fresh 1 [] 5 1 [] in
+   life_disc ex_env_fresh (resume_height 1 pre) (crash_at 5 (flat (snd (lifetime ex_env_fresh 1 [] 0 []))) []) 1 [] = true /\
+   no_conflict pre (flat (snd post)) = false).
+Proof. split; [vm_compute; reflexivity|]. split; [intro h; vm_compute; reflexivity|]. vm_compute. split; reflexivity. Qed.
+
+(* quorum_positive is needed for step to respect obs_eq: with total power 0 the quorum is 0, and an empty
+   round entry (as a rejected message creates it) makes "quorum of any prevotes" true *)
+Definition zero_cfg : cfg :=
+  mkCfg 0 (fun _ => 0) (fun _ _ => 0) (fun _ _ => 1) (fun _ => true) (fun v => v) (fun _ => 0).
+Definition st_a : state := mkS 1 0 SPrevote None (-1) None (-1) false false false true (vc_new 1) 0 0 0.
+Definition st_b : state := mkS 1 0 SPrevote None (-1) None (-1) false false false true (mkVC 1 [(0%Z, r_empty)] []) 0 0 0.
+Example C13_quorum_positive_needed :
+  select zero_cfg st_a None = RNone /\ select zero_cfg st_b None = R34 /\
+  (forall h r, cell (s_vc st_a) h r = cell (s_vc st_b) h r).
+Proof.
+  split; [vm_compute; reflexivity|]. split; [vm_compute; reflexivity|].
+  intros h r. unfold cell, row, fut, st_a, st_b. simpl. destruct (h =? 1); [|reflexivity].
+  unfold rm_get. simpl. destruct (r =? 0)%Z; reflexivity.
+Qed.
